@@ -359,7 +359,7 @@ def transparent_args(callee):
         if r.fullmatch(n):
             return ix
     # resolved impl paths look like `<T as core::clone::Clone>::clone`
-    m = re.search(r" as (?:std|core|alloc)::([\w:]+)>::(\w+)$", callee)
+    m = re.search(r" as (?:std|core|alloc)::([\w:]+)>::(\w+)$", n)
     if m:
         tr = m.group(1) + "::" + m.group(2)
         if tr in ("clone::Clone::clone", "convert::Into::into", "convert::From::from", "convert::AsRef::as_ref",
@@ -1070,3 +1070,82 @@ def write_range(body, prov, t):
             return None
         cur = nxt
     return None
+
+
+# ---------------------------------------------------------------------------------- comparisons on named user variables
+
+def operand_name(body, blk, op, depth=0):
+    """name of the user variable an operand copies (following single-assignment temporaries and derefs of
+    references in the same or a dominating block is not attempted: only same-block copies), or a constant"""
+    if op.kind == "k":
+        c = op.const_int()
+        if c is not None:
+            return c
+        d = op.const_def()
+        return d
+    pl = op.place
+    if pl is None:
+        return None
+    name = body.local_name(pl.local)
+    if name and all(p == "*" or (isinstance(p, tuple) and p[0] == "f") for p in pl.proj):
+        fields = [p[2] for p in pl.proj if isinstance(p, tuple)]
+        return ".".join([name] + fields)
+    if depth > 6:
+        return None
+    for b in body.blocks:
+        for s in b.stmts:
+            if s.k == "a" and s.lhs.is_local() and s.lhs.local == pl.local:
+                if s.rv.k in ("use", "cast") and s.rv.ops:
+                    return operand_name(body, b, s.rv.ops[0], depth + 1)
+                if s.rv.k == "ref":
+                    fake = Operand(["c", [s.rv.place.local, []]])
+                    fake.place = s.rv.place
+                    return operand_name(body, b, fake, depth + 1)
+    return None
+
+
+def named_switches(body):
+    """yield (block, op, lhs_name, rhs_name, false_target, true_target) for switches on a comparison of named variables/constants
+    (BinaryOp comparisons and PartialOrd/PartialEq calls)"""
+    live = body.live_blocks()
+    for b in body.blocks:
+        if b.idx not in live or b.cleanup or b.term.k != "switch" or b.term.discr.place is None:
+            continue
+        t = b.term
+        d = t.discr.place.local
+        f = None
+        for v, tb in t.vals:
+            if v == 0:
+                f = tb
+        tr = t.otherwise
+        found = None
+        neg = False
+        cur = d
+        for _ in range(3):
+            nxt = None
+            for s in b.stmts:
+                if s.k == "a" and s.lhs.is_local() and s.lhs.local == cur:
+                    if s.rv.k == "bin" and s.rv.j["op"] in CMP_OPS:
+                        found = (CMP_OPS[s.rv.j["op"]], s.rv.ops[0], s.rv.ops[1], b)
+                    elif s.rv.k == "un" and s.rv.j["op"] == "Not" and s.rv.ops[0].place is not None:
+                        nxt = s.rv.ops[0].place.local
+                        neg = not neg
+                    elif s.rv.k == "use" and s.rv.ops[0].place is not None:
+                        nxt = s.rv.ops[0].place.local
+            if found or nxt is None:
+                break
+            cur = nxt
+        if not found:
+            # comparison computed by a call in the predecessor block
+            for pb in body.blocks:
+                tt = pb.term
+                if tt.k == "call" and tt.target == b.idx and tt.dest.is_local() and tt.dest.local == cur and len(tt.args) == 2:
+                    m = re.search(r"::(lt|le|gt|ge|eq|ne)$", short(tt.callee() or ""))
+                    if m and re.search(r"cmp::|PartialOrd|PartialEq", tt.callee() or ""):
+                        found = (CMP_CALLS[m.group(1)], tt.args[0], tt.args[1], pb)
+        if not found:
+            continue
+        op, a, c, blk = found
+        if neg:
+            op = {"<": ">=", "<=": ">", ">": "<=", ">=": "<", "==": "!=", "!=": "=="}[op]
+        yield b.idx, op, operand_name(body, blk, a), operand_name(body, blk, c), f, tr
